@@ -40,7 +40,18 @@ impl ElfSectionsTag {
     /// Get an iterator over the ELF sections.
     #[must_use]
     pub const fn sections(&self) -> ElfSectionIter {
-        let string_section_offset = (self.shndx * self.entry_size) as isize;
+        let entry_size = self.entry_size as usize;
+        let len = self.sections.len();
+        assert!(
+            (self.number_of_sections as usize).saturating_mul(entry_size) <= len,
+            "ELF section headers must fit into the tag"
+        );
+        assert!(
+            self.number_of_sections == 0
+                || (self.shndx as usize + 1).saturating_mul(entry_size) <= len,
+            "ELF string table section header must lie inside the tag"
+        );
+        let string_section_offset = (self.shndx as usize * entry_size) as isize;
         let string_section_ptr =
             unsafe { self.sections.as_ptr().offset(string_section_offset) as *const _ };
         ElfSectionIter {
